@@ -137,7 +137,9 @@ if __name__ == "__main__":
     name, seed, variant = sys.argv[1], int(sys.argv[2]), int(sys.argv[3])
     prior = int(sys.argv[4]) if len(sys.argv) > 4 else 0
     names = sorted(builders())
-    for k in range(prior):              # unrelated simulations run earlier in this interpreter
+    if prior < 0:                       # the same model, built and run once before in this interpreter
+        run(name, seed, variant)
+    for k in range(max(prior, 0)):      # unrelated simulations run earlier in this interpreter
         other = names[(k * 7 + 3) % len(names)]
         if other != name:
             run(other, seed + 1000 + k, 0, wall_s=20.0)
